@@ -168,7 +168,28 @@ fn gen_history(r: &mut Rng, fmt_name: &str, slots: usize, nops: usize) -> Vec<Va
             if ok { live[i] = true; len[i] = x.len(); }
             continue;
         }
-        match r.below(16) {
+        match r.below(18) {
+            16 | 17 => {
+                // copy-on-write probe: make the representation unusual (owned but short: SendTendril round trip,
+                // clear, reserve), clone, then grow both handles
+                let free: Vec<usize> = (0..slots).filter(|k| !live[*k]).collect();
+                if let Some(&j) = free.first() {
+                    match r.below(3) {
+                        0 => ops.push(e("send", i, 0, 0, 0, &[])),
+                        1 => { ops.push(e("clear", i, 0, 0, 0, &[])); len[i] = 0; },
+                        _ => ops.push(e("reserve", i, 0, 20 + r.below(20), 0, &[])),
+                    }
+                    ops.push(e("clone", i, j, 0, 0, &[]));
+                    live[j] = true;
+                    len[j] = len[i];
+                    let x: Vec<u8> = if fmt_name == "bytes" || fmt_name == "latin1" { (100..109).collect() } else { b"ABCDEFGHI".to_vec() };
+                    let y: Vec<u8> = if fmt_name == "bytes" || fmt_name == "latin1" { (200..205).collect() } else { b"vwxyz".to_vec() };
+                    ops.push(e("push", i, 0, 0, 0, &x));
+                    ops.push(e("push", j, 0, 0, 0, &y));
+                    len[i] += x.len();
+                    len[j] += y.len();
+                }
+            },
             14 | 15 => {
                 // split into two views (adjacent, gapped or overlapping) and rejoin them
                 let free: Vec<usize> = (0..slots).filter(|k| !live[*k]).collect();
